@@ -7,10 +7,14 @@ instead of assuming them."""
 
 
 def forest(ctx):
-    """C01's forest disciplines + C06's staleness protocol, once per check context"""
+    """C01's forest disciplines + C06's staleness protocol + C18's metric-change clauses, once per check context"""
     if getattr(ctx, '_premise_forest', None) is ctx.F:
         return
     ctx._premise_forest = ctx.F
-    from props import C01, C06
+    from props import C01, C06, C18
     C01.rules(ctx)
     C06.rules(ctx)
+    # a metric change is one of the operations of a history: asking for the same metric must change nothing, another metric
+    # must wipe the forest and the metadata (otherwise a committed version serves items no tree reaches)
+    if ctx.prop != 'C18':
+        C18.rules(ctx)
